@@ -187,3 +187,22 @@ def real(eff):
 
 def is_self_root(eff):
     return eff.loc is not None and eff.loc[0][0] == "self"
+
+
+def alpha_src(f):
+    """Source of function f with blanks removed and every local (a name bound inside the function that is
+    not a parameter) renamed v0, v1, .. in order of first binding.  Shape rules that compare source text use
+    this form, so that renaming a local never changes a verdict."""
+    import copy
+    tree = copy.deepcopy(f.node)
+    stores = []
+    for n in ast.walk(tree):
+        if isinstance(n, ast.Name) and isinstance(n.ctx, ast.Store) and n.id not in f.params:
+            stores.append((n.lineno, n.col_offset, n.id))
+    order = {}
+    for _, _, name in sorted(stores):
+        order.setdefault(name, "v%d" % len(order))
+    for n in ast.walk(tree):
+        if isinstance(n, ast.Name) and n.id in order:
+            n.id = order[n.id]
+    return ast.unparse(tree).replace(" ", "")
